@@ -572,6 +572,9 @@ class SamplingMethod(DirectMethod):
 
             # Grid for B-spline
             self.xi = ca.vec(DM(self.time_grid(0, 1, self.N))).T
+            if isinstance(self.time_grid, FreeGrid) and (stage.parameters['bspline'] or stage.variables['bspline']):
+                # the knots above are the (uniform) normalized nodes, not the free control grid
+                raise Exception("grid='bspline' parameters/variables are not supported on a FreeGrid")
 
             # Parameters needed before variables because of self.T = self.eval(stage, stage._T)
             self.add_parameter(stage, opti)
